@@ -33,6 +33,38 @@ Theorem C01_uper_roundtrip :
 Proof. exact uper_roundtrip. Qed.
 Print Assumptions C01_uper_roundtrip.
 
+From Asn1V Require Props.C06 Props.C03 Oer.OerReencode Ber.BerRoundtrip.
+
+(** OER: decode (encode v ++ tail) = (oer_norm v, length of the encoding) on the region oer_ok (Oer/OerScope.v).
+    (statement = the type of [Asn1V.Props.C06.C06_oer_roundtrip]; written out in that file) *)
+Theorem C01_oer_roundtrip : ltac:(let T := type of Asn1V.Props.C06.C06_oer_roundtrip in exact T).
+Proof. exact Asn1V.Props.C06.C06_oer_roundtrip. Qed.
+Print Assumptions C01_oer_roundtrip.
+
+(** OER: re-encoding the decoded value reproduces the identical octets (under the canonical-value side condition oer_canon).
+    (statement = the type of [Asn1V.Oer.OerReencode.oer_reencode]; written out in that file) *)
+Theorem C01_oer_reencode : ltac:(let T := type of Asn1V.Oer.OerReencode.oer_reencode in exact T).
+Proof. exact Asn1V.Oer.OerReencode.oer_reencode. Qed.
+Print Assumptions C01_oer_reencode.
+
+(** DER: the DER decoder reads every in-scope encoding back to the normal form, with any tail.
+    (statement = the type of [Asn1V.Props.C03.C03_der_roundtrip]; written out in that file) *)
+Theorem C01_der_roundtrip : ltac:(let T := type of Asn1V.Props.C03.C03_der_roundtrip in exact T).
+Proof. exact Asn1V.Props.C03.C03_der_roundtrip. Qed.
+Print Assumptions C01_der_roundtrip.
+
+(** DER output read by the BER decoder.
+    (statement = the type of [Asn1V.Props.C03.C03_der_ber_roundtrip]; written out in that file) *)
+Theorem C01_der_ber_roundtrip : ltac:(let T := type of Asn1V.Props.C03.C03_der_ber_roundtrip in exact T).
+Proof. exact Asn1V.Props.C03.C03_der_ber_roundtrip. Qed.
+Print Assumptions C01_der_ber_roundtrip.
+
+(** BER: round trip for types without SET / SET OF / named bits (where the BER and DER encoders coincide); full ber_roundtrip is OPEN.
+    (statement = the type of [Asn1V.Ber.BerRoundtrip.ber_roundtrip_partial]; written out in that file) *)
+Theorem C01_ber_roundtrip_partial : ltac:(let T := type of Asn1V.Ber.BerRoundtrip.ber_roundtrip_partial in exact T).
+Proof. exact Asn1V.Ber.BerRoundtrip.ber_roundtrip_partial. Qed.
+Print Assumptions C01_ber_roundtrip_partial.
+
 (* OPEN: C01_uper_reencode : enc (norm v) = enc v (byte-identical re-encoding of the decoded
    value) is not proved yet; it is exercised by the property test on /repo. *)
 
